@@ -70,6 +70,34 @@ Section Facts.
   Lemma stored_done_owned p g : In g (stored_done p) -> In g (owned p).
   Proof. destruct p; cbn; auto; try contradiction. Qed.
 
+  (* what a stage knows about the files it names without owning them: the file being written is partial; a lookup
+     that is about to open a file never finds a partially written one (C05_no_partial_read); the file a lookup could
+     not open is gone for good (below the fresh-name supply and absent: names are never reused), so the file named
+     by the row it selects afterwards is a different one *)
+  Definition read_ok (sup : Z) (fl : Z -> fstate) (p : pc) : Prop :=
+    match p with
+    | Storing _ f => fl f = FPartial
+    | ReadOpen r mo f _ _ => rop_ok r /\ f < sup /\ fl f <> FPartial /\ same_file mo f = false /\
+                             (forall g, mo = Some g -> g < sup /\ fl g = FNone)
+    | ReadAgain r g => rop_ok r /\ g < sup /\ fl g = FNone
+    | _ => True
+    end.
+
+  (* what a stage knows about files survives the moves of the other clients *)
+  Lemma read_ok_frame sup sup' (fl fl' : Z -> fstate) p :
+    sup <= sup' ->
+    (forall g, g < sup -> fl' g = FPartial -> fl g = FPartial) ->
+    (forall g, g < sup -> fl g = FNone -> fl' g = FNone) ->
+    (forall g, In g (owned p) -> fl' g = fl g) ->
+    read_ok sup fl p -> read_ok sup' fl' p.
+  Proof.
+    intros Hs Hpart Hnone Hown. destruct p; cbn; auto.
+    - intros E. rewrite Hown; [exact E|left; reflexivity].
+    - intros [Hr [Lt [Np [Sf Hm]]]]. split; [exact Hr|]. split; [lia|]. split; [intros P; apply Np, Hpart; assumption|].
+      split; [exact Sf|]. intros g Eg. destruct (Hm g Eg) as [Lg Ng]. split; [lia|auto].
+    - intros [Hr [Lt Ng]]. split; [exact Hr|]. split; [lia|auto].
+  Qed.
+
   Record Inv (c : config) : Prop := {
     i_dinv : Dinv (db c);
     i_ref : forall g, In g (refs (db c)) -> files c g = FDone;                      (* C05_ref_inv *)
@@ -82,8 +110,7 @@ Section Facts.
     i_stored : forall i g, In g (stored_done (c_pc (cl c i))) -> files c g = FDone;
     i_wops : forall i, (forall w, pc_wop (c_pc (cl c i)) = Some w -> body_ok w) /\ Forall op_ok (c_todo (cl c i));
     i_store_flag : forall i, store_flag_ok (c_pc (cl c i));
-    (* a lookup that is about to open a file never finds a partially written one (C05_no_partial_read) *)
-    i_readopen : forall i f h m, c_pc (cl c i) = ReadOpen f h m -> f < supply c /\ files c f <> FPartial;
+    i_read : forall i, read_ok (supply c) (files c) (c_pc (cl c i));
     (* the lock and the transaction stages *)
     i_lock_none : lock c = None -> forall i, in_txn (c_pc (cl c i)) = false;
     i_lock_some : forall j wk, lock c = Some (j, wk) ->
@@ -120,7 +147,6 @@ Section Facts.
     - constructor.
     - intros i. split; [discriminate | apply Hp].
     - discriminate.
-    - discriminate.
   Qed.
 
   (* ---- preservation by a kill ---- *)
@@ -134,7 +160,7 @@ Section Facts.
     - intros j g. cases_ij i j; cbn; [contradiction|eauto].
     - intros j. cases_ij i j; cbn; [split; [discriminate|constructor]|eauto].
     - intros j. cases_ij i j; cbn; [exact I|eauto].
-    - intros j f h m. cases_ij i j; cbn; [discriminate|eauto].
+    - intros j. cases_ij i j; cbn; [exact I|eauto].
     - intros Hl j. cases_ij i j; cbn; [reflexivity|].
       unfold holds in Hl. destruct (lock c) as [[k wk]|] eqn:L.
       + destruct (Nat.eqb k i) eqn:E; [|discriminate]. apply Nat.eqb_eq in E. subst k.
@@ -161,10 +187,12 @@ Section Facts.
     (forall w, pc_wop (c_pc x') = Some w -> body_ok w) -> Forall op_ok (c_todo x') ->
     store_flag_ok (c_pc x') ->
     (forall g, g < supply c -> files' g = FPartial -> files c g = FPartial) ->
-    (forall f h m, c_pc x' = ReadOpen f h m -> f < supply' /\ files' f <> FPartial) ->
+    (forall g, g < supply c -> files c g = FNone -> files' g = FNone) ->
+    (forall j g, j <> i -> In g (owned (c_pc (cl c j))) -> files' g = files c g) ->
+    read_ok supply' files' (c_pc x') ->
     Inv {| db := db c; lock := lock c; files := files'; supply := supply'; cl := upd_cl c i x'; commits := commits c |}.
   Proof.
-    intros H Told Tnew Fref Hs Hfresh Fst Hown Hnd Hsd Hw Ht Hflag Hpart Hro. destruct H.
+    intros H Told Tnew Fref Hs Hfresh Fst Hown Hnd Hsd Hw Ht Hflag Hpart Hnone Hoth Hro. destruct H.
     split; cbn; auto.
     - intros g I. specialize (i_ref_lt0 g I). lia.
     - intros j g. cases_ij i j; [intros I; apply Hown, I | intros I; specialize (i_own_lt0 j g I); lia].
@@ -176,8 +204,7 @@ Section Facts.
     - intros j g. cases_ij i j; [apply Hsd | apply Fst; assumption].
     - intros j. cases_ij i j; [split; assumption | eauto].
     - intros j. cases_ij i j; [exact Hflag | eauto].
-    - intros j f h m. cases_ij i j; [apply Hro|]. intros E. destruct (i_readopen0 j f h m E) as [Lt Np].
-      split; [lia|]. intros P. apply Np, Hpart; assumption.
+    - intros j. cases_ij i j; [exact Hro|]. eapply read_ok_frame; eauto.
     - intros Hl j. cases_ij i j; [exact Tnew | eauto].
     - intros j wk Hl. destruct (i_lock_some0 j wk Hl) as [T [Ho Hm]].
       assert (Hji : j <> i) by (intros ->; congruence).
@@ -194,7 +221,7 @@ Section Facts.
     (forall g, In g (stored_done (c_pc x')) -> In g (stored_done (c_pc (cl c i)))) ->
     (forall w, pc_wop (c_pc x') = Some w -> body_ok w) -> Forall op_ok (c_todo x') ->
     store_flag_ok (c_pc x') ->
-    (forall f h m, c_pc x' = ReadOpen f h m -> f < supply c /\ files c f <> FPartial) ->
+    read_ok (supply c) (files c) (c_pc x') ->
     Inv (with_cl c i x').
   Proof.
     intros H Told Tnew Hsub Hnd Hsd Hw Ht Hflag Hro. pose proof H as H0. destruct H0. unfold with_cl.
@@ -214,7 +241,7 @@ Section Facts.
     stored_done (c_pc x') = [] ->
     (forall w, pc_wop (c_pc x') = Some w -> body_ok w) -> Forall op_ok (c_todo x') ->
     store_flag_ok (c_pc x') ->
-    (forall f h m, c_pc x' <> ReadOpen f h m) ->
+    (forall sup fl, read_ok sup fl (c_pc x')) ->
     Inv {| db := db c; lock := lock c; files := upd_file c g FNone; supply := supply c; cl := upd_cl c i x'; commits := commits c |}.
   Proof.
     intros H Told Tnew Og Hsub Hnd Hsd Hw Ht Hflag Hro. pose proof H as H0. destruct H0.
@@ -226,7 +253,8 @@ Section Facts.
     - intros g' I. split; [eauto|]. split; [eauto|]. intros j Hj. apply (i_own_disj0 i j); auto.
     - rewrite Hsd. intros g' [].
     - intros g' Lt. unfold upd_file. destruct (g' =? g); [discriminate|auto].
-    - intros f h m E. exfalso. eapply Hro; eauto.
+    - intros g' Lt N. unfold upd_file. destruct (g' =? g); [reflexivity|exact N].
+    - intros j g' Hj I. rewrite upd_file_other; [reflexivity|]. intros ->. eapply (i_own_disj0 i j); eauto.
   Qed.
 
   Lemma txn_holder c i : Inv c -> in_txn (c_pc (cl c i)) = true -> exists wk, lock c = Some (i, wk).
@@ -257,7 +285,7 @@ Section Facts.
     assert (Wp : forall w, pc_wop p = Some w -> body_ok w) by (rewrite <- Ep; apply (i_wops0 i)).
     assert (Nd : NoDup (owned p)) by (rewrite <- Ep; apply i_own_nodup0).
     assert (Sfl : store_flag_ok p) by (rewrite <- Ep; apply i_store_flag0).
-    destruct p as [|w f|w f|w f|w f o l|w f o|l fe res|f r|f res|f|f hit miss|].
+    destruct p as [|w f|w f|w f|w f o l|w f o|l fe res|f r|f res|f|r mo f hit miss|r mo|].
     - (* Idle *)
       destruct todo as [|[w|r] rest]; [discriminate| |]; inversion Wt as [|? ? Hw Frest]; subst.
       + destruct (w_store w) eqn:Ws; intros E; inversion E; subst; clear E.
@@ -274,13 +302,16 @@ Section Facts.
           -- intros g [].
           -- intros w' E; inversion E; subst; exact Hw.
           -- intros g Lt. rewrite upd_file_other; [auto|lia].
-          -- discriminate.
+          -- intros g Lt N. rewrite upd_file_other; [auto|lia].
+          -- intros j g Hj I. rewrite upd_file_other; [reflexivity|]. specialize (i_own_lt0 j g I). lia.
+          -- apply upd_file_same.
         * apply inv_move; auto; try (rewrite Ep; reflexivity); side.
           intros w' E; inversion E; subst; exact Hw.
-      + destruct (r_select r (db c)) as [res|res|f h m] eqn:Sel; intros E; inversion E; subst; clear E;
+      + intros E; inversion E; subst; clear E. unfold after_select.
+        destruct (r_select r (db c)) as [res|res|f h m] eqn:Sel;
           (apply inv_move; auto; try (rewrite Ep; reflexivity); side).
-        intros f' h' m' E. inversion E; subst. specialize (Hw _ _ _ _ Sel).
-        split; [auto|]. rewrite (i_ref0 _ Hw). discriminate.
+        pose proof (Hw _ _ _ _ Sel) as If. split; [exact Hw|]. split; [auto|]. split; [rewrite (i_ref0 _ If); discriminate|].
+        split; [reflexivity|discriminate].
     - (* Storing *)
       intros E; inversion E; subst; clear E.
       assert (Of : In f (owned (c_pc (cl c i)))) by (rewrite Ep; left; reflexivity).
@@ -292,7 +323,9 @@ Section Facts.
       + intros g [<-|[]]. apply upd_file_same.
       + cbn in Sfl. intros Hf. congruence.
       + intros g Lt. unfold upd_file. destruct (g =? f); [discriminate|auto].
-      + discriminate.
+      + intros g Lt N. rewrite upd_file_other; [exact N|]. intros ->.
+        pose proof (i_read0 i) as Rd. rewrite Ep in Rd. cbn in Rd. congruence.
+      + intros j g Hj I. rewrite upd_file_other; [reflexivity|]. intros ->. eapply (i_own_disj0 i j); eauto.
     - (* AtBegin *)
       destruct (lock c) as [[j wk]|] eqn:L.
       + destruct (w_retry w); intros E; inversion E; subst; clear E; [exact H|].
@@ -309,7 +342,7 @@ Section Facts.
         * intros j g. cases_ij i j; [cbn; intros I; apply (i_stored0 i); rewrite Ep; exact I | eauto].
         * intros j. cases_ij i j; [cbn; split; [exact Wp | exact Wt] | eauto].
         * intros j. cases_ij i j; [cbn; exact Sfl | eauto].
-        * intros j f' h m. cases_ij i j; [cbn; discriminate | eauto].
+        * intros j. cases_ij i j; [cbn; exact I | eauto].
         * discriminate.
         * intros j wk E. inversion E; subst. rewrite upd_cl_same. cbn. split; [reflexivity|]. split; [|reflexivity].
           intros k Hk. rewrite upd_cl_other by assumption. apply i_lock_none0. reflexivity.
@@ -333,7 +366,7 @@ Section Facts.
       * intros j g. cases_ij i j; [cbn; intros I; apply (i_stored0 i); rewrite Ep; exact I | eauto].
       * intros j. cases_ij i j; [cbn; split; [intros w' E; inversion E; subst; exact Bw | exact Wt] | eauto].
       * intros j. cases_ij i j; [cbn; exact Sfl | eauto].
-      * intros j f' h m. cases_ij i j; [cbn; discriminate | eauto].
+      * intros j. cases_ij i j; [cbn; exact I | eauto].
       * discriminate.
       * intros j wk E. inversion E; subst. rewrite upd_cl_same. cbn. split; [reflexivity|]. split; [|auto].
         intros k Hk. rewrite upd_cl_other by assumption. apply Ho. assumption.
@@ -352,7 +385,7 @@ Section Facts.
       * intros j g. cases_ij i j; [cbn; intros I; apply (i_stored0 i); rewrite Ep; exact I | eauto].
       * intros j. cases_ij i j; [cbn; split; [exact Wp | exact Wt] | eauto].
       * intros j. cases_ij i j; [cbn; exact Sfl | eauto].
-      * intros j f' h m. cases_ij i j; [cbn; discriminate | eauto].
+      * intros j. cases_ij i j; [cbn; exact I | eauto].
       * intros Hl j. congruence.
       * intros j wk' E. rewrite L in E. inversion E; subst. rewrite upd_cl_same. cbn. split; [reflexivity|]. split; [|auto].
         intros k Hk. rewrite upd_cl_other by assumption. apply Ho. assumption.
@@ -384,7 +417,7 @@ Section Facts.
         * intros j g. cases_ij i j; [cbn; contradiction | eauto].
         * intros j. cases_ij i j; [cbn; split; [discriminate | exact Wt] | eauto].
         * intros j. cases_ij i j; [cbn; exact I | eauto].
-        * intros j f' h m. cases_ij i j; [cbn; discriminate | eauto].
+        * intros j. cases_ij i j; [cbn; exact I | eauto].
         * intros _ j. cases_ij i j; [reflexivity | apply Ho; assumption].
         * discriminate.
       + (* ROLLBACK *)
@@ -398,7 +431,7 @@ Section Facts.
         * intros j g. cases_ij i j; [cbn; contradiction | eauto].
         * intros j. cases_ij i j; [cbn; split; [discriminate | exact Wt] | eauto].
         * intros j. cases_ij i j; [cbn; exact I | eauto].
-        * intros j f' h m. cases_ij i j; [cbn; discriminate | eauto].
+        * intros j. cases_ij i j; [cbn; exact I | eauto].
         * intros _ j. cases_ij i j; [reflexivity | apply Ho; assumption].
         * discriminate.
     - (* Cleaning *)
@@ -426,8 +459,21 @@ Section Facts.
       + apply inv_move; auto; side.
     - (* ReadOpen *)
       assert (Tf : in_txn (c_pc (cl c i)) = false) by (rewrite Ep; reflexivity).
-      intros E; inversion E; subst; clear E.
-      apply inv_move; auto; side.
+      pose proof (i_read0 i) as Rd. rewrite Ep in Rd. cbn in Rd. destruct Rd as [Hr [Lt [Np [Sf Hm]]]].
+      destruct (files c f) eqn:Ff; [| contradiction |].
+      + (* the file is gone *)
+        destruct (r_again r && negb (same_file mo f)); intros E; inversion E; subst; clear E;
+          (apply inv_move; auto; side).
+      + intros E; inversion E; subst; clear E. apply inv_move; auto; side.
+    - (* ReadAgain *)
+      assert (Tf : in_txn (c_pc (cl c i)) = false) by (rewrite Ep; reflexivity).
+      pose proof (i_read0 i) as Rd. rewrite Ep in Rd. cbn in Rd. destruct Rd as [Hr [Lt Ng]].
+      intros E; inversion E; subst; clear E. unfold after_select.
+      destruct (r_select r (db c)) as [res|res|f h m] eqn:Sel; (apply inv_move; auto; side).
+      pose proof (Hr _ _ _ _ Sel) as If. split; [exact Hr|]. split; [auto|]. split; [rewrite (i_ref0 _ If); discriminate|].
+      split.
+      * cbn. apply Z.eqb_neq. intros ->. rewrite (i_ref0 _ If) in Ng. discriminate.
+      * intros g Eg. inversion Eg; subst. split; assumption.
     - discriminate.
   Qed.
 End Facts.
@@ -436,5 +482,6 @@ Arguments Inv {D R}.
 Arguments op_ok {D R}.
 Arguments body_ok {D R}.
 Arguments rop_ok {D R}.
+Arguments read_ok {D R}.
 Arguments in_txn {D R}.
 Arguments owned {D R}.
